@@ -30,13 +30,14 @@ CallsOf(f) ==
     [] f \in {"base64Decode", "base64DecodeBytes"} ->
          {C(f, s, <<>>, <<>>, 0, 0, <<>>) : s \in Strs({81, 85, 61, 69, 45}, 4) \cup {B64Encode(bs) : bs \in Strs({0, 65, 255, 128}, MaxLen)}
                                                \cup {<<81, 85, 69, 61, 81, 81, 61, 61>>, <<81, 81, 61, 61, 81, 85, 69, 61>>, <<81, 86, 61, 61>>}}
-    [] f = "parseJson" -> {C(f, s, <<>>, <<>>, 0, 0, <<>>) : s \in Strs({91, 93, 49, 44, 32, 34, 97, 123, 125, 58}, 4)}
+    [] f \in {"parseJson", "parseYaml"} -> {C(f, s, <<>>, <<>>, 0, 0, <<>>) : s \in Strs({91, 93, 49, 44, 32, 34, 97, 123, 125, 58}, 4)
+                                               \cup {<<123, 34, 97, 34, 58, 49, 125>>, <<123, 34, 97, 34, 58, 32, 91, 49, 44, 32, 34, 97, 34, 93, 125>>, <<91, 49, 44, 32, 123, 34, 97, 34, 58, 32, 123, 125, 125, 44, 32, 91, 93, 93>>, <<123, 34, 97, 34, 58, 123, 34, 97, 34, 58, 34, 97, 34, 125, 125>>, <<91, 91, 49, 44, 49, 93, 44, 91, 49, 93, 93>>, <<123, 34, 97, 34, 58, 91, 93, 44, 34, 97, 97, 34, 58, 123, 125, 125>>}}   \* a few whole documents: {"a":1}  {"a": [1, "a"]}  [1, {"a": {}}, []]  {"a":{"a":"a"}}  [[1,1],[1]]  {"a":[],"aa":{}}
 
 Functions ==
   CASE Family = "unary" -> Unary \cup Escapes
     [] Family = "binary" -> Binary \cup {"splitLimit", "splitLimitR", "strReplace", "substr"}
     [] Family = "codec" -> {"char", "parseInt", "parseOctal", "parseHex", "decodeUTF8", "base64Bytes", "base64Decode",
-                            "base64DecodeBytes", "parseJson"}
+                            "base64DecodeBytes", "parseJson", "parseYaml"}
 
 VARIABLE st
 Init == st \in {[ph |-> "seed", f |-> f] : f \in Functions}
